@@ -12,6 +12,9 @@ META = {
     "level": "Decides the structural clauses: a store writes a temporary in the destination directory, closes it, fixes access/mtime, and only then renames it over the entry (so a reader sees the previous or the new complete entry); keys() skips exactly those temporaries, judged by the directory entry's own name; '_eclasses_' is deconstructed on store and reconstructed on load whenever the key is PRESENT (not merely truthy); the eclass tuple layout, splitter and the checksum (de)serializer tables agree between the two directions; lines are written `key=value` and split on the first '='. Does NOT decide concrete round trips or actual crash recovery.",
     "note": "md5_cache inherits every method from flat_hash.database",
 }
+META["technique"] += "; " + 'filesystem-effect summaries: publication by rename is one step'
+META["level"] += " Added after the second round of independent changes: " + '(R6) _setitem never deletes the live entry before renaming the new one onto it and writes nothing to it afterwards.'
+META["technique"] += "; " + 'generic pack G on the anchored files (optional-flag shift, closures outliving a loop iteration, single-pass iterables consumed twice, %-templates built from data, in-place writes to class-level / memoised objects, generators mutating what they yielded, memo keys that are projections)'
 FH = "pkgcore.cache.flat_hash"
 CM = "pkgcore.cache"
 
